@@ -199,19 +199,30 @@ static inline void v_frame_check(const uint8_t *f, size_t len) {
 
     /* ---- request-specific clauses -------------------------------------------------------------- */
     if (g_req.kind == V_K_PROBE) {
-        if (g_led.tx_attempts == 0) {
-            V_REQUIRE("C06.probe.kind: Probe for kind 1, Train for kind 0",
-                      op == (g_req.d_type == 1 ? 0x04 : 0x03));
-            V_REQUIRE("C06.probe.eth-src: descriptor source as Ethernet source", v_mac_eq(f + 6, g_req.d_src.a));
-            V_REQUIRE("C06.probe.eth-dst: descriptor destination as Ethernet destination", v_mac_eq(f, g_req.d_dst.a));
-            V_REQUIRE("C10.probe.real-dst: real destination = the station the probe is sent to",
-                      v_mac_eq(f + 18, g_req.d_dst.a));
+        /* expected descriptor: the harness's (standalone sendProbeMsg) or, when an Emit frame is under proof, the
+         * next unexecuted descriptor of that frame (index = Probe/Train frames attempted since the Emit began) */
+        const uint8_t *e_src = g_req.d_src.a, *e_dst = g_req.d_dst.a;
+        uint8_t e_type = g_req.d_type, e_pause = g_req.d_pause, e_ack = g_req.d_ack;
+        if (g_req.emit_frame != NULL) {
+            size_t idx = (size_t)(g_led.tx_op[3] + g_led.tx_op[4]) - (op == 0x05 ? 1u : 0u);
+            V_REQUIRE("C06.descriptor-order: frames follow the descriptors of the Emit, in order", idx < g_req.emit_n);
+            e_type = g_req.emit_frame[34 + 14 * idx];
+            e_pause = g_req.emit_frame[35 + 14 * idx];
+            e_src = g_req.emit_frame + 36 + 14 * idx;
+            e_dst = g_req.emit_frame + 42 + 14 * idx;
+            e_ack = (idx + 1 == g_req.emit_n);
+        }
+        if (op != 0x05) {
+            V_REQUIRE("C06.probe.kind: Probe for kind 1, Train for kind 0", op == (e_type == 1 ? 0x04 : 0x03));
+            V_REQUIRE("C06.probe.eth-src: descriptor source as Ethernet source", v_mac_eq(f + 6, e_src));
+            V_REQUIRE("C06.probe.eth-dst: descriptor destination as Ethernet destination", v_mac_eq(f, e_dst));
+            V_REQUIRE("C10.probe.real-dst: real destination = the station the probe is sent to", v_mac_eq(f + 18, e_dst));
             V_REQUIRE("C06.probe.seq-zero", f[30] == 0 && f[31] == 0);
-            V_REQUIRE("C06.probe.pause-first: the descriptor's pause was waited before the frame",
-                      g_led.sleep_calls == 1 && g_led.sleep_last == g_req.d_pause);
+            V_REQUIRE("C06.probe.pause-first: the descriptor's pause was waited immediately before the frame",
+                      g_led.sleep_last == e_pause && g_led.sleep_at_tx == g_led.tx_attempts);
         } else {
-            V_REQUIRE("C06.ack.only-after-probe", g_led.tx_attempts == 1 && g_req.d_ack);
-            V_REQUIRE("C06.ack.opcode", op == 0x05);
+            V_REQUIRE("C06.ack.only-when-requested: ACK only after the last descriptor's frame",
+                      e_ack && g_led.last_op != 0x05 && g_led.tx_attempts > g_req.tx_base);
             V_REQUIRE("C06.ack.eth-src-own", v_own_mac(f + 6));
             V_REQUIRE("C06.ack.eth-dst: apparent mapper address", v_mac_eq(f, g_req.mapper_apparent.a));
             V_REQUIRE("C06.ack.real-dst: mapper address", v_mac_eq(f + 18, g_req.mapper_real.a));
@@ -220,7 +231,7 @@ static inline void v_frame_check(const uint8_t *f, size_t len) {
     }
     if (g_req.kind == V_K_HELLO) {
         V_REQUIRE("C03.hello.opcode", op == 0x01);
-        V_REQUIRE("C03.hello.single: at most one Hello per Discover", g_led.tx_attempts == 0);
+        V_REQUIRE("C03.hello.single: at most one Hello per Discover", g_led.tx_attempts == g_req.tx_base);
         V_REQUIRE("C03.hello.eth-broadcast", v_mac_bcast(f));
         V_REQUIRE("C03.hello.real-broadcast", v_mac_bcast(f + 18));
         V_REQUIRE("C03.hello.eth-src-own", v_own_mac(f + 6));
@@ -232,7 +243,7 @@ static inline void v_frame_check(const uint8_t *f, size_t len) {
     }
     if (g_req.kind == V_K_QRESP || g_req.kind == V_K_QLTV) {
         V_REQUIRE("C07.resp.opcode", op == (g_req.kind == V_K_QRESP ? 0x07 : 0x0C));
-        V_REQUIRE("C07.resp.single: one response per request", g_led.tx_attempts == 0);
+        V_REQUIRE("C07.resp.single: one response per request", g_led.tx_attempts == g_req.tx_base);
         V_REQUIRE("C07.resp.eth-src-own", v_own_mac(f + 6));
         V_REQUIRE("C07.resp.seq: the request's sequence number", v_be16(f + 30) == g_req.seq);
         bool bridged = !v_mac_eq(g_req.real_src.a, g_req.eth_src.a);
